@@ -3,3 +3,13 @@ check("C01", "exploration",
       "Every tunnel history up to length 3 (thorough: 4) over a 13-symbol alphabet, the single-deviation closure of the valid session and PRNG histories are executed against the real rdpgw binary on both transports and in two configurations; responses, end of tunnel, dial hook events, backend accepts and relayed bytes must be accepted by the reference automaton M. Held on the executions listed in the evidence file, not a proof.",
       "trusted: the lab's own MS-TSGU codec and transports, the fake IdP / auth stand-ins, the dial hook; histories longer than the bounds and bodies outside the generated classes are not explored",
       "DESIGN.md 4 C01")
+check("C16", "exploration",
+      "runtime monitoring: independent strict MS-TSGU decoder + reference encoder over every packet the real binary sends, one process per configuration",
+      "All 2^7 redirect-switch combinations x six idle timeouts (complete product) are started as real gateway processes; per process a fixed set of histories reaches every outcome on both transports, and every packet sent by the gateway is decoded by a decoder written from the specification (no code shared with the repository) and compared with the reference encoding of the statement; statuses are checked against the reference automaton.",
+      "trusted: the lab's decoder and reference encoder; idle timeouts are sampled at six values of the int32 range; the close response is accepted in the MS-TSGU 4-byte form or the gateway's mask form (the statement demands mask consistency only)",
+      "DESIGN.md 4 C16")
+check("C17", "exploration",
+      "runtime monitoring: handshake oracle ok(server,client) over real handshakes against the real binary in all four server settings",
+      "Real handshakes over websocket and legacy transports against real gateway processes in all four {cookie auth, smart card} settings: quick samples 0..1023, all one/two-bit values and PRNG values plus version sweeps; thorough enumerates all 65536 capability values and all 65536 version pairs at four capability values. Response status, advertised bits, version echo and the fate of the tunnel afterwards are checked.",
+      "trusted: lab codec and transports; cookie-auth settings run in openid mode, the others in ntlm mode with a stand-in authentication service",
+      "DESIGN.md 4 C17")
